@@ -781,7 +781,7 @@ func lsnComparison(f *Func, e ast.Expr, row types.Object) *lsnCmp {
 }
 
 func c02RedoGuard(c *Ctx, rule string) {
-	c.Rule(rule, "in replay every page mutation (insertKey, updateCell, store to a cell's deleted flag, markDirty, incrementLastKey) is dominated by the not-skipped edge of a comparison of the record's LSN with the page's last LSN whose skip side means record <= page ('<' also accepted: re-applying the page's own last record is idempotent)")
+	c.Rule(rule, "in replay every page mutation (insertKey, updateCell, store to a cell's deleted flag, markDirty, incrementLastKey) is dominated by the not-skipped edge of a comparison of the record's LSN with the page's last LSN whose skip side means exactly record <= page ('<' is NOT enough: the redo of an insert is not idempotent — a page flushed right after the insert that split it carries the record's own LSN, and applying that record again puts the row a second time into the left half, where the duplicate test no longer finds it)")
 	ri := findReplay(c, rule)
 	if ri == nil {
 		return
@@ -857,8 +857,10 @@ func c02RedoGuard(c *Ctx, rule string) {
 		op = neg[op]
 	}
 	key := f.Name + "|guard-polarity"
-	if op == token.LEQ || op == token.LSS {
+	if op == token.LEQ {
 		c.OK(rule, key, ri.guard.Pos(), 1, "record skipped iff record.LSN %s page.lastLSN", op)
+	} else if op == token.LSS {
+		c.Fail(rule, key, ri.guard.Pos(), "the redo guard skips a record only when record.LSN < page.lastLSN: the record whose LSN the page already carries is applied a second time — for the insert that split the page the row is inserted again into the left half (the duplicate test looks in the half that no longer holds it) and the table shows it twice after a restart")
 	} else {
 		c.Fail(rule, key, ri.guard.Pos(), "the redo guard skips a record when record.LSN %s page.lastLSN: records newer than the page are dropped (or older ones re-applied)", op)
 	}
